@@ -26,7 +26,9 @@ Lay(s) == LET u == FirstOcc(s, 1, <<>>) n == Len(u) IN
     \* a second descriptor for the first chunk (sharing the stored bytes or with its own copy): checksums need not be unique in the schema
     dupdesc |-> RandomElement({"none", "none", "shared", "copy"}),
     \* wording of the HTTP server's answers: Content-Length only / Content-Range a-b/N + extra headers / Content-Range a-b/* + chunked coding
-    dialect |-> RandomElement({0, 0, 1, 2})]
+    dialect |-> RandomElement({0, 0, 1, 2}),
+    \* the recorded compression level: information only; 0 (or unset, which reads as 0) is a legitimate value of the schema's uint32
+    clevel |-> RandomElement({"normal", "normal", "zero"})]
    : d \in PermSeqs(u), so \in PermSeqs(u), g \in [1..n -> {0, 5}], sl \in {0, 37}}
 Scen == UNION {{[sz |-> RandomElement(Profiles), src |-> s, prior |-> <<>>, inplace |-> FALSE,
                  seeds |-> RandomElement({<<>>, <<<<1>>>>, <<<<2, 0>>>>}), hl |-> RandomElement({4, 5, 8, 32, 63, 64}), layout |-> la] : la \in Lay(s)} : s \in Srcs17}
